@@ -554,6 +554,7 @@ pub async fn run_async(plan: Arc<PlanB>, opts: &ExecB) -> RunResult {
         out_delay_max_ms: 1500,
         sndbuf: plan.sndbuf,
         eph_ports: plan.eph_ports,
+        send_err_p: plan.send_err_p,
         max_seg: plan.max_seg,
         faults_until_ns: plan.queries.iter().filter(|q| !q.after_faults).map(|q| q.at_ms).max().map(|t| (t + 600_000) * 1_000_000).filter(|_| plan.queries.iter().any(|q| q.after_faults)).unwrap_or(u64::MAX),
     };
@@ -804,6 +805,7 @@ fn evaluate(plan: &PlanB, kernel: &Arc<Kernel>, sh: &Sh, sent_at_ns: &[u64], _en
         }
         /* ---- what came back */
         let mut responses: Vec<(u64, Vec<u8>, Option<i32>, Option<SocketAddr>)> = vec![];
+        let mut injected_send_errors = 0usize;
         if q.tcp {
             for (at, f) in &g.tcp_frames[qi] {
                 responses.push((*at, f.clone(), None, None));
@@ -812,6 +814,11 @@ fn evaluate(plan: &PlanB, kernel: &Arc<Kernel>, sh: &Sh, sent_at_ns: &[u64], _en
             for o in &outs {
                 if let OutKind::Udp { src, dst, data } = &o.kind {
                     if dst.ip() == q.src_ip && dst.port() == q.src_port {
+                        if o.injected {
+                            /* a failed system call: for the client the same as a lost datagram */
+                            injected_send_errors += 1;
+                            continue;
+                        }
                         responses.push((o.at_ns, data.clone(), o.errno, Some(*src)));
                     }
                 }
@@ -884,6 +891,10 @@ fn evaluate(plan: &PlanB, kernel: &Arc<Kernel>, sh: &Sh, sent_at_ns: &[u64], _en
             if responses.is_empty() {
                 res.violate("C05", if q.tcp { "C05.dns_service_stopped_answering.tcp" } else { "C05.dns_service_stopped_answering.udp" }, format!("well-formed query {} ({} from {}) sent 1.5 s after a hostile input got no response", q.qname.to_text(), if q.tcp { "TCP" } else { "UDP" }, q.src_ip), qi);
             }
+        }
+        if responses.is_empty() && injected_send_errors > 0 {
+            res.probe("C07.response_lost_to_a_failed_sendmsg");
+            continue;
         }
         if responses.is_empty() {
             /* erbium's per-upstream TCP task connects and times out for one query at a time, so
@@ -1301,7 +1312,7 @@ fn only_own_udp_loss(plan: &PlanB, q: &QuerySpec) -> bool {
     if q.tcp || q.after_faults || q.dup_in {
         return false;
     }
-    if plan.out_loss_p > 0.0 || plan.out_dup_p > 0.0 || plan.out_delay_p > 0.0 || plan.qid_bits < 16 {
+    if plan.out_loss_p > 0.0 || plan.out_dup_p > 0.0 || plan.out_delay_p > 0.0 || plan.qid_bits < 16 || plan.send_err_p > 0.0 {
         return false;
     }
     if !plan.clock_jumps.is_empty() {
@@ -1315,7 +1326,7 @@ fn is_clean(plan: &PlanB, q: &QuerySpec) -> bool {
         /* probabilistic network faults have stopped 200 s before; its own exchange is well behaved */
         return true;
     }
-    if plan.out_loss_p > 0.0 || plan.out_dup_p > 0.0 || plan.out_delay_p > 0.0 || plan.qid_bits < 16 || q.dup_in {
+    if plan.out_loss_p > 0.0 || plan.out_dup_p > 0.0 || plan.out_delay_p > 0.0 || plan.qid_bits < 16 || q.dup_in || plan.send_err_p > 0.0 {
         return false;
     }
     if plan.upstream_tcp.iter().any(|m| m != "accept") {
